@@ -298,7 +298,7 @@ def do_replay(prop, ob, inputs, tier='thorough'):
     os.makedirs(os.path.join(HOME, 'replays'), exist_ok=True)
     path = os.path.join(HOME, 'replays', '%s_%s.json' % (prop, re.sub(r'[^A-Za-z0-9_.-]', '_', ob.name)))
     with open(path, 'w') as f:
-        json.dump(dict(property=prop, obligation=ob.name, tier=tier, inputs=inputs), f, indent=1, default=repr)
+        json.dump(dict(property=prop, obligation=ob.name, tier=tier, inputs=_enc_bytes(inputs)), f, indent=1, default=repr)
     p = subprocess.run([PY, '-B', os.path.join(HOME, 'engine', 'main.py'), prop, '--replay', path],
                        capture_output=True, text=True, timeout=600, cwd=HOME)
     what = ''
@@ -310,6 +310,14 @@ def do_replay(prop, ob, inputs, tier='thorough'):
     if p.returncode == 0:
         return False, what, path
     return None, (p.stderr or p.stdout)[-1500:], path
+
+
+def _enc_bytes(d):
+    return {k: ({'__bytes__': bytes(v).hex()} if isinstance(v, (bytes, bytearray)) else v) for k, v in d.items()} if isinstance(d, dict) else d
+
+
+def dec_bytes(d):
+    return {k: (bytes.fromhex(v['__bytes__']) if isinstance(v, dict) and '__bytes__' in v else v) for k, v in d.items()} if isinstance(d, dict) else d
 
 
 def default_ch_replay(ob):
